@@ -39,6 +39,7 @@ Dg ==
         w == Out(d, on) IN
     IF R.panic = 1 THEN Bad("panic:" \o Class(d))
     ELSE IF R.err = 1 THEN Bad("error:" \o Class(d))
+    ELSE IF R.pv = 1 THEN Bad("reflect:decision-depends-on-previous-hop:" \o Class(d))
     ELSE IF R.k = "fwd" THEN
         IF IsRequest(d) THEN Bad("fwd:request-forwarded")
         ELSE IF w.k = "fwd" /\ w.host = R.host /\ w.port = R.port THEN Ok
